@@ -324,7 +324,9 @@ class LogChecker:
         self.stats["rungs_completed"] += 1
         ids = [v[0] for v in rung.values()]
         real = [t for t in ids if t is not None]
-        if len(set(real)) != len(real):
+        if len(set(real)) != len(real) and not self.dehb:
+            # (DEHB records the WINNER of its selection step in the slot; the same trial can win in
+            # several slots by design, so distinctness is not demanded there)
             self.bad("bracket %d rung %d filled by non-distinct trials %s" % (bid, k, ids), "rung_not_distinct")
         b["cur"] = k + 1
         if k + 1 >= len(b["sys"]):
@@ -1020,12 +1022,127 @@ def run_sched(ctx, replay):
                           broken="correspondence chk_sched (model/SyncHB.v suggest / on_trial_result / on_trial_error)")
 
 
+# ------------------------------------------------------------------ DEHB scheduler: requests for work keep being answered
+class _CallTimeout(Exception):
+    pass
+
+
+def _with_alarm(seconds, fn, *a, **k):
+    """run fn under SIGALRM (a call that does not return is a violation, not a hung check)"""
+    import signal
+
+    def _h(signum, frame):
+        raise _CallTimeout("no answer within %d s" % seconds)
+    old = signal.signal(signal.SIGALRM, _h)
+    signal.alarm(seconds)
+    try:
+        return fn(*a, **k)
+    finally:
+        signal.alarm(0)
+        signal.signal(signal.SIGALRM, old)
+
+
+def gen_dehb_sched_spec(rng):
+    return dict(mode=rng.choice(["min", "max"]), grace_period=rng.choice([1, 1, 2]), max_resource=rng.choice([4, 9, 9, 16, 27]),
+                reduction_factor=rng.choice([2, 3, 3, 4]), brackets=rng.choice([None, None, 1, 2]),
+                pfail=rng.choice([0.0, 0.1, 0.3, 0.5]), workers=rng.choice([1, 2, 4]), steps=rng.randint(40, 160),
+                seed=rng.randrange(1 << 30), pause_resume=rng.choice([True, False]))
+
+
+def run_dehb_sched(ctx, replay):
+    """The real GeometricDifferentialEvolutionHyperbandScheduler (dehb.py is not modelled): every suggest /
+    on_trial_result / on_trial_error under the protocol must return, whatever jobs fail; the bracket manager's
+    job/result log is checked by LogChecker (rung sizes, levels, offsets, no slot twice, new bracket only when no free slot)."""
+    import random as _random
+    from syne_tune.backend.trial_status import Trial
+    from syne_tune.config_space import uniform
+    from syne_tune.optimizer.schedulers.synchronous.hyperband_impl import GeometricDifferentialEvolutionHyperbandScheduler
+    if replay and replay.get("kind") == "dehb_sched":
+        specs = [replay["spec"]]
+    elif replay:
+        return
+    else:
+        specs = [gen_dehb_sched_spec(ctx.rng) for _ in range(ctx.n(40, 600))]
+    t0 = datetime.datetime(2020, 1, 1)
+    for sp in specs:
+        rng = _random.Random(sp["seed"])
+        kw = dict(metric="m", mode=sp["mode"], resource_attr="epoch", max_resource_attr="epochs",
+                  grace_period=sp["grace_period"], reduction_factor=sp["reduction_factor"],
+                  random_seed=sp["seed"] % 1000, support_pause_resume=sp["pause_resume"])
+        if sp["brackets"] is not None:
+            kw["brackets"] = sp["brackets"]
+        try:
+            sch = GeometricDifferentialEvolutionHyperbandScheduler(
+                {"x": uniform(0, 1), "y": uniform(0, 1), "epochs": sp["max_resource"]}, **kw)
+        except AssertionError:
+            ctx.h("dehb_sched_constructor", "rejected")
+            continue
+        rss = [[(int(a), int(b)) for a, b in rs] for rs in sch.bracket_manager.bracket_rungs]
+        rec = RecordingManager(sch.bracket_manager)
+        sch.bracket_manager = rec
+        chk = LogChecker(rss, sp["mode"], dehb=True)
+        running, trials, n, nfail, broken = {}, {}, 0, 0, None
+        for _ in range(sp["steps"]):
+            if len(running) < sp["workers"] and (not running or rng.random() < 0.6):
+                try:
+                    sg = _with_alarm(20, sch.suggest, n)
+                except Exception as e:
+                    broken = ("suggest", e)
+                    break
+                if sg is None:
+                    continue
+                if sg.spawn_new_trial_id:
+                    t = n
+                    n += 1
+                    trials[t] = Trial(trial_id=t, config=sg.config, creation_time=t0)
+                    sch.on_trial_add(trials[t])
+                else:
+                    t = int(sg.checkpoint_trial_id)
+                running[t] = int(sg.config["epochs"]) if sg.config is not None else None
+            else:
+                t = rng.choice(sorted(running))
+                ms = running.pop(t)
+                try:
+                    if rng.random() < sp["pfail"] or ms is None:
+                        nfail += 1
+                        _with_alarm(20, sch.on_trial_error, trials[t])
+                    else:
+                        _with_alarm(20, sch.on_trial_result, trials[t], {"m": gen_metric(rng, "grid_fine"), "epoch": ms})
+                except Exception as e:
+                    broken = ("on_trial_result/on_trial_error", e)
+                    break
+        for e in rec.log:
+            if e[0] == "next":
+                chk.on_next_job(e[1], e[2])
+            else:
+                chk.on_result(e[1], e[2], e[3])
+        ctx.count(("dehb_sched", sp), nontrivial=chk.stats["rungs_completed"] >= 1 and nfail >= 1)
+        ctx.h("dehb_sched_brackets", sp["brackets"])
+        ctx.h("dehb_sched_failures", min(nfail, 5))
+        ctx.h("dehb_sched_rungs_completed", min(chk.stats["rungs_completed"], 6))
+        case = dict(kind="dehb_sched", spec=sp)
+        if broken is not None:
+            call, e = broken
+            import traceback
+            tb = traceback.extract_tb(e.__traceback__)
+            where = [f for f in tb if "syne_tune" in f.filename][-1:] or tb[-1:]
+            ctx.violation("property", "DEHB scheduler: %s raised %s: %s at %s:%s — the request for work is not answered / the "
+                          "failed job blocks the bracket" % (call, type(e).__name__, e, os.path.basename(where[0].filename),
+                                                             where[0].name),
+                          case=case, signature=dict(component="DifferentialEvolutionHyperbandScheduler", call=call,
+                                                    exception=type(e).__name__, function=where[0].name))
+        for msg, defect in chk.problems[:2]:
+            ctx.violation("property", "DEHB scheduler job/result log: " + msg, case=case,
+                          signature=dict(component="DifferentialEvolutionHyperbandScheduler", defect=defect))
+
+
 def run(ctx, replay=None):
     logging.disable(logging.CRITICAL)
     ctx.rule = ("cases: (top) random rungs with ties and failed entries for get_top_list; (mgr) random next_job/on_result "
                 "sequences on the real bracket manager over geometric and custom rung systems, 1-14 workers, random/"
                 "lifo/fifo/newest-bracket-first return order, random failures; (sched) the same through the real "
-                "scheduler classes (suggest/on_trial_result/on_trial_error/...). Non-trivial = a get_top_list case with "
+                "scheduler classes (suggest/on_trial_result/on_trial_error/...); (dehb_sched) the real DEHB scheduler with "
+                "failing jobs: every call returns, its bracket-manager log passes the checker. Non-trivial = a get_top_list case with "
                 "a tie or a failed entry and 0 < new_len < len, or a sequence that completes >= 1 rung with >= 2 open "
                 "brackets or >= 1 failed job; distinct by content hash")
     try:
@@ -1041,9 +1158,11 @@ def run(ctx, replay=None):
                         run_geom(ctx, case)
                         run_mgr(ctx, case)
                         run_sched(ctx, case)
+                        run_dehb_sched(ctx, case)
         run_top(ctx, replay)
         run_geom(ctx, replay)
         run_mgr(ctx, replay)
         run_sched(ctx, replay)
+        run_dehb_sched(ctx, replay)
     finally:
         logging.disable(logging.NOTSET)
